@@ -94,7 +94,8 @@ func typeStrings() []string {
 }
 
 var ttls = []int{0, -1, 60}
-var channels = []string{"a/", "a/b/", "a/#/", "+/", "#/", "a", "a/+/b/", "a//b/", ""}
+// "." and ".." are ordinary level names to the channel grammar (nothing may treat them as path navigation)
+var channels = []string{"a/", "a/b/", "a/#/", "+/", "#/", "a", "a/+/b/", "a//b/", "", "a/b/../c/", "a/./b/"}
 
 type parentSpec struct {
 	Kind   string `json:"kind"`
